@@ -11,6 +11,8 @@ rt.autoprove = False
 from pysnark.runtime import PrivVal, LinComb
 from pysnark.branching import BranchingValues, _if, _elif, _else, _endif, _range, _endfor, _while, _endwhile, _breakif
 BN = 21888242871839275222246405745257275088548364400416034343698204186575808495617
+_ = BranchingValues()          # a module-level context named `_`: functions that keep their own context under another name must still use their own
+_.unused = 0
 
 
 def pv(x): return x.value if isinstance(x, LinComb) else (x.lc.value if hasattr(x, "lc") and not isinstance(x, LinComb) else x)
